@@ -391,6 +391,12 @@ def binop(op, a, b, node=None):
     if isinstance(a, (tuple, list)) and isinstance(b, int) \
             and isinstance(op, ast.Mult):
         return type(a)(list(a) * b)
+    if isinstance(op, ast.Mult) and (
+            (isinstance(a, (tuple, list)) and isinstance(b, Poly))
+            or (isinstance(b, (tuple, list)) and isinstance(a, Poly))):
+        # a sequence repeated a symbolic number of times
+        seq, cnt = (a, b) if isinstance(a, (tuple, list)) else (b, a)
+        return ("repeated", tuple(seq), cnt)
     if isinstance(a, str) and isinstance(b, str) and isinstance(op, ast.Add):
         return a + b
     if isinstance(a, float):
@@ -1330,7 +1336,15 @@ class Interp:
                 v = [v[k] for k in range(v.shape[0])]
             return tuple(v) if n == "tuple" else list(v)
         if n == "enumerate":
-            return list(enumerate(args[0]))
+            v = args[0]
+            if hasattr(v, "skv_iter"):
+                v = v.skv_iter()
+            if isinstance(v, Arr):
+                v = [v[k] for k in range(v.shape[0])]
+            if not isinstance(v, (list, tuple, range, dict, str)):
+                raise Unsupported("enumerate over non-concrete iterable",
+                                  node)
+            return list(enumerate(v))
         if n == "zip":
             return list(zip(*args))
         if n == "sum":
